@@ -12,13 +12,16 @@ TRANSLATOR_UNITS = ["opshape"]
 SHARD = 250
 RULE = ("exhaustive: every unary/binary operator x operand shapes {u0..u3,s1..s3} x all operand values; "
         "every slice / part-select(all offsets, widths 0..3, strides 1..2) / cat of two / 2-case switch over shapes u0..u3,s1..s3; "
-        "random: seeded expression trees depth<=4 (thorough 6), <=4 signals, widths<=8 (thorough<=40), 6 boundary-biased stimuli; "
+        "derived operators (abs, constant shifts, rotates, replicate, matches, int/slice/stepped indexing, Mux, Array) built through "
+        "the public API and nested in random trees; random: seeded expression trees depth<=4 (thorough 6), <=4 signals, widths<=8 (thorough<=40), 6 boundary-biased stimuli; "
         "malformed stream (signed shift amounts/offsets, bad slices, bad patterns, zero-width as_signed) compared on accept/reject. "
         "non-trivial = well-formed, contains an operator node and a signal, and the observed results differ between two stimuli; "
         "distinct by hash of (term, signal shapes)")
 MODELLED = ("value nodes of hdl/_ast.py (Const, Signal, Operator, Slice, Part, Concat, SwitchValue) and their shape() in "
             "coq/Model/Ast.v; _RHSValueCompiler in coq/Model/PyRTL.v (raw-integer semantics of the generated Python); "
-            "_pyeval.eval_value in coq/Model/PyEval.v. exec() of generated code, ValueVisitor dispatch, the delta-cycle "
+            "_pyeval.eval_value in coq/Model/PyEval.v; the rewriting definitions of abs/shift_*/rotate_*/replicate/matches/__getitem__/"
+            "Mux/ArrayProxy.as_value in coq/Model/Derived.v (rotate, replicate, matches, stepped slices: tied by the run only, "
+            "no theorem). exec() of generated code, ValueVisitor dispatch, the delta-cycle "
             "engine and Signal commit are exercised by the differential run only")
 ASSUMPTIONS = ["signals hold normalised values (env_ok), as _PySignalState guarantees"]
 
